@@ -32,7 +32,7 @@ Docs ==
   IN flat \cup deep
 
 Scenarios == {[items |-> x, kind |-> kd, doctype |-> dt, sel |-> s] :
-                x \in Docs, kd \in {"attr", "newel"}, dt \in {"none", "plain", "system", "public"}, s \in {"all", "first", "none"}}
+                x \in Docs, kd \in {"attr", "newel"}, dt \in {"none", "plain", "system", "public"}, s \in {"all", "first", "none", "empty"}}      \* "empty": the detector ran and found nothing (an empty result list)
 
 \* targets in document order as paths <<i>> or <<i, j>>
 Targets(items) ==
@@ -46,7 +46,7 @@ First(S) == CHOOSE p \in S : \A q \in S : q = p \/ Before(p, q)
 Selected(s) ==
   LET T == Targets(s.items) IN
   IF s.kind = "newel" THEN T                         \* the new-element transformer is used without results
-  ELSE CASE s.sel = "all" -> T [] s.sel = "none" -> {} [] s.sel = "first" -> IF T = {} THEN {} ELSE {First(T)}
+  ELSE CASE s.sel = "all" -> T [] s.sel \in {"none", "empty"} -> {} [] s.sel = "first" -> IF T = {} THEN {} ELSE {First(T)}
 
 EditLeaf(n, kind) ==
   IF kind = "attr" THEN [n EXCEPT !.attrs = (@ \ {"a"}) \cup {"a!", "c!"}]     \* a! / c!: the mapped values
